@@ -318,7 +318,34 @@ let execcnt_cmd (toks : string list) : string option =
        | [] -> None)
   | _ -> None
 
-let handlers : (string list -> string option) list ref = ref [index_cmd; tree_cmd; exec_cmd; exectsm_cmd; execper_cmd; execcnt_cmd; mem_cmd]
+(* ---- direct P2P on SpecFloat ---- *)
+let p2p_cmd (toks : string list) : string option =
+  match toks with
+  | "p2p" :: fmt :: routine :: ns :: nt :: r0 :: words ->
+      let (prec, emax) = if fmt = "64" then (iz 53, iz 1024) else (iz 24, iz 128) in
+      let ns = int_of_string ns and nt = int_of_string nt in
+      let dec w = sf_of_bits prec emax (z_of_string w) in
+      let enc x = zs (bits_of_sf prec emax x) in
+      let o = sf_ops prec emax in
+      let r0 = dec r0 in
+      let rec parts n l = if n = 0 then ([], l) else
+        (match l with
+         | x :: y :: z :: v :: r -> let (ps, rest) = parts (n-1) r in ({ p_x = dec x; p_y = dec y; p_z = dec z; p_v = dec v } :: ps, rest)
+         | _ -> failwith "p2p words") in
+      let (src, rest) = parts ns words in
+      let (tgt, _) = parts nt rest in
+      let rz = { f_x = r0; f_y = r0; f_z = r0; f_p = r0 } in
+      let pr rs = String.concat " " (List.concat_map (fun r -> [enc r.f_x; enc r.f_y; enc r.f_z; enc r.f_p]) rs) in
+      (match routine with
+       | "remote" -> Some (pr (full_remote o src (List.map (fun t -> (t, rz)) tgt)))
+       | "mutual" ->
+           let (srcs, trs) = full_mutual o (List.map (fun s -> (s, rz)) src) (List.map (fun t -> (t, rz)) tgt) in
+           Some (pr trs ^ " | " ^ pr (List.map snd srcs))
+       | "inner" -> Some (pr (inner o (List.map (fun t -> (t, rz)) tgt)))
+       | _ -> None)
+  | _ -> None
+
+let handlers : (string list -> string option) list ref = ref [index_cmd; tree_cmd; exec_cmd; exectsm_cmd; execper_cmd; execcnt_cmd; mem_cmd; p2p_cmd]
 
 let () =
   let ic = open_in Sys.argv.(1) in
